@@ -147,7 +147,11 @@ func eGenCommand(r *rand.Rand) database.Command {
 	// command line
 	parts := []string{}
 	if r.Intn(3) > 0 {
-		parts = append(parts, eTools[r.Intn(len(eTools))])
+		t := eTools[r.Intn(len(eTools))]
+		if r.Intn(6) == 0 { // a different program whose name merely begins with a recognised tool's name
+			t += []string{"k", "blk", "str", "info", "x", "2"}[r.Intn(6)]
+		}
+		parts = append(parts, t)
 	}
 	for i, n := 0, r.Intn(4); i < n; i++ {
 		w := eCase(r, eWord(r))
@@ -221,6 +225,17 @@ func eGenDB(r *rand.Rand) []database.Command {
 				d := cloneCmd(c)
 				d.Platform = append([]string(nil), ePlatformSets[r.Intn(len(ePlatformSets))]...)
 				cmds = append(cmds, d)
+			case 3: // near-tie: same text, one more word in a long description (scores differ in a late digit)
+				d := cloneCmd(c)
+				d.Description = strings.Repeat(c.Description+" ", 3+r.Intn(8))
+				e := cloneCmd(d)
+				e.Description = d.Description + eWord(r)
+				if r.Intn(2) == 0 {
+					e.Command = e.Command + " --long-option-name"
+				} else {
+					d.Command = d.Command + " --long-option-name"
+				}
+				cmds = append(cmds, d, e)
 			case 2: // tie group: same text, distinct command line suffix that does not tokenize
 				for k := 0; k < 2+r.Intn(4) && len(cmds) < n; k++ {
 					d := cloneCmd(c)
@@ -327,6 +342,10 @@ func eGenOpts(r *rand.Rand, n int, cmds []database.Command) eOpts {
 			o.Boosts = append(o.Boosts, eBoost{Word: ints(eWord(r)), F: []string{"1", "1.3", "1.5", "2", "1.1"}[r.Intn(5)]})
 		}
 	}
+	if len(o.Boosts) > 0 && r.Intn(3) == 0 { // a second key that contains the first as one of its words (script / target names)
+		w := fromInts(o.Boosts[0].Word)
+		o.Boosts = append(o.Boosts, eBoost{Word: ints(w + []string{"-", ":", "_", "."}[r.Intn(4)] + eWord(r)), F: []string{"1.2", "1.7", "2.5"}[r.Intn(3)]})
+	}
 	o.TermsCap = []int{0, 0, 0, 3, 5, 12, -1}[r.Intn(7)]
 	switch r.Intn(6) {
 	case 0:
@@ -405,7 +424,34 @@ func marshalCommands(cmds []database.Command) ([]byte, error) {
 
 func eScenario(r *rand.Rand) ([]database.Command, string, eOpts) {
 	o := eOpts{}
-	switch r.Intn(3) {
+	switch r.Intn(4) {
+	case 3:
+		// a long query (more than ten content words) whose first words are very common in the database: the cap on
+		// query terms must still keep the first four
+		common := []string{ePlain[r.Intn(12)], eTargets[r.Intn(len(eTargets))]}
+		var cmds []database.Command
+		n := 8 + r.Intn(8)
+		for i := 0; i < n; i++ {
+			c := eGenCommand(r)
+			if r.Intn(10) < 8 {
+				c.Description = common[0] + " " + c.Description
+			}
+			if r.Intn(10) < 7 {
+				c.Command = c.Command + " " + common[1]
+			}
+			if i == 0 { // matches the query only through the common first word
+				c = database.Command{Command: "zzq" + common[0], Description: common[0]}
+			}
+			cmds = append(cmds, c)
+		}
+		words := []string{common[0], common[1]}
+		for len(words) < 11+r.Intn(4) {
+			words = append(words, ePlain[r.Intn(len(ePlain)-4)], eActions[r.Intn(len(eActions))])
+		}
+		o.Limit = n + 3
+		o.NLP = r.Intn(3) != 0
+		o.AllPlatforms = true
+		return cmds, strings.Join(words, " "), o
 	case 0:
 		// typo fallback under a restrictive filter: many ineligible entries match the typo better (shorter text)
 		// than the few eligible ones, and the limit is small
